@@ -1,6 +1,7 @@
 """C13 — every advertised option value is accepted and survivable: structural clauses C13-ZERO, C13-ADV,
 C13-RANGE, C13-NOLOCK (DESIGN.md §3)."""
-from facts import norm, show, walk, strip_refs, deep_strip, callee_name, find_calls, guard_conditions, const_str
+from facts import norm, show, walk, strip_refs, deep_strip, callee_name, find_calls, guard_conditions, const_str, place_fields
+import pC04
 import pC05
 import pC19
 
@@ -11,7 +12,10 @@ EXPLANATION = (
     "name dispatching to its own option's setter; (RANGE) for each spin option min <= default <= max on the evaluated "
     "constants, the setter stores the parsed value in its own EngineOptions field, the hash setter's value reaches "
     "TranspositionTable::resize, and the size arithmetic cannot overflow for the advertised maximum; (NOLOCK) "
-    "setoption reaches only try_lock, never a blocking lock."
+    "setoption reaches only try_lock, never a blocking lock; (CONSUME) every function other than the UCI dispatcher that "
+    "reads a numeric EngineOptions field (today: TimeStrategy::new reading move_overhead) has all of its panic sites "
+    "discharged by the interval / class rules of the C04 machinery, so no advertised value can abort the engine where "
+    "the value is used."
 )
 
 
@@ -22,6 +26,47 @@ def run(fx, rep, tier):
     rule_adv(fx, rep, ex, arms)
     rule_range(fx, rep, ex, arms)
     pC05.rule_noblock(fx, rep, ex, arms, names=("SetOption", "IsReady"), rid="C13-NOLOCK")
+    rule_consume(fx, rep, ex)
+
+
+def option_readers(fx, ex):
+    """{fn name: {fields}} for every function, other than the dispatcher and the option setters, that reads a field of EngineOptions"""
+    out = {}
+    for b in fx.fn_bodies():
+        if "::tests::" in b.name or b.name == ex.name or norm(b.name).startswith("engine::uci::options::") or norm(b.name).startswith("engine::options::") or \
+                "options::EngineOptions as" in b.name or norm(b.name) == "engine::uci::uci":
+            # the dispatcher / main loop (the hash value's path from there is C13-RANGE + C13-ZERO), the setters and the derives
+            continue
+        flds = set()
+
+        def visit(pl):
+            for (adt, fld) in place_fields(pl):
+                if adt.endswith("options::EngineOptions"):
+                    flds.add(fld)
+        for bb, j, st in b.stmts():
+            rv = st.get("rv")
+            if rv:
+                for o in b.rvalue_operands(rv):
+                    if isinstance(o, dict) and "pl" in o:
+                        visit(o["pl"])
+        for bb, t in b.calls():
+            for a in t["args"]:
+                if "pl" in a:
+                    visit(a["pl"])
+        if flds:
+            out[b.name] = flds
+    return out
+
+
+def rule_consume(fx, rep, ex):
+    readers = option_readers(fx, ex)
+    rep.sample({"rule": "C13-CONSUME", "readers": {k: sorted(v) for k, v in readers.items()}})
+    numeric = {k for k, v in readers.items() if v - {"syzygy_path"}}
+    if not numeric:
+        rep.violation("C13-CONSUME", "C13-CONSUME/anchor", "no function outside the dispatcher reads a numeric EngineOptions field (expected at least TimeStrategy::new reading move_overhead)", {})
+        rep.rule("C13-CONSUME", 0, 1, False)
+        return
+    pC04.run_cone(fx, rep, "C13-CONSUME", sorted(numeric), pC04.exempt_roots(fx), 4)
 
 
 def option_names(fx):
@@ -177,6 +222,9 @@ U = "src/engine/uci/mod.rs"
 O = "src/engine/uci/options.rs"
 TTF = "src/engine/transposition_table.rs"
 MUTANTS = [
+    {"name": "move overhead subtracted with a panicking Duration subtraction (seed C13-1)", "expect": "C13-CONSUME",
+     "edits": [("src/engine/search/time_control.rs", "                let mut time_remaining = time_remaining.unwrap_or_default();\n\n                time_remaining = time_remaining\n                    .saturating_sub(move_overhead)\n                    .max(move_overhead);",
+                "                let time_remaining =\n                    (time_remaining.unwrap_or_default() - move_overhead).max(move_overhead);")]},
     {"name": "Hash 0 guard removed from insert (original defect)", "expect": "C13-ZERO",
      "edits": [(TTF, "        // A table with no entries (Hash = 0) stores nothing\n        if self.data.is_empty() {\n            return;\n        }\n", "")]},
     {"name": "option advertised without a handler", "expect": "C13-ADV",
